@@ -758,6 +758,8 @@ FIXED = [
      "shared-do-comment"),
     ("subroutine s\ndo 12 i=1,n\n#ifdef X\ndo 12 j=1,n\n#endif\n! c\n12 x = x + 1\nend subroutine s\n",
      "shared-do-cpp"),
+    ("program p\ndo 10 i=1,3\nx = 1\nend do\n10 continue\nend program p\n", "enddo-label-mismatch"),
+    ("program p\ndo 10 i=1,3\n20 end do\nend program p\n", "enddo-wrong-label"),
     ("block data\nend block data bd\n", "unnamed-start"),
     ("module m\ncontains\nsubroutine s\nblock data\nend block data bd\nend subroutine s\nend module m\n",
      "unnamed-start-nested"),
